@@ -79,7 +79,7 @@ Proof.
   - destruct (IH _ _ _ _ _ H (bl_set_sorted _ _ _ Hs) x) as [I1 I2].
     pose proof (bl_count_set x b rq keep Hs) as Hc. fold ts in Hc.
     rewrite rr_app, app_length in I1. unfold gone in I1. rewrite rr_gone in I1. unfold keep in Hc. rewrite cnt_keep in Hc.
-    fold keep in Hc, I1, I2. destruct (tid_mem x ids); split; try lia; intros; try discriminate. rewrite I2 by reflexivity. lia.
+    fold keep in Hc, I1, I2. destruct (tid_mem x ids); split; intros; try discriminate; try (rewrite I2 by reflexivity); lia.
   - destruct (IH _ _ _ _ _ H Hs x) as [I1 I2]. unfold gone, ts in I1. rewrite (bl_has_false _ _ Eh) in I1. cbn in I1.
     rewrite app_nil_r in I1. auto.
 Qed.
@@ -101,6 +101,14 @@ Proof.
   assert (Hget : bl_get b' k = v) by (apply bl_get_unique; [apply sorted_nodup; exact Hs' | exact Hin]).
   assert (Hord : In k order) by (apply Hall, Hk; apply (in_map fst) in Hin; exact Hin).
   rewrite <- Hget in Hy. pose proof (retract_removes _ _ _ _ _ _ _ _ H Hord Hy) as Hf. rewrite Hid in Hf. congruence.
+Qed.
+
+Lemma retract_from_nil order : forall b out b' out', retract_from b order [] out = (b', out') -> out' = out.
+Proof.
+  induction order as [|rq r IH]; cbn [retract_from]; intros b out b' out' H; [inversion H; reflexivity|].
+  assert (E : forall l : list wtask, map wt_id (filter (fun t : wtask => tid_mem (wt_id t) []) l) = []).
+  { clear. induction l as [|h l IHl]; [reflexivity | exact IHl]. }
+  rewrite E, app_nil_r in H. eapply IH; exact H.
 Qed.
 
 Section Handlers.
@@ -146,13 +154,7 @@ Proof.
     intros k Hk. apply n_mem_In. apply Hp. exact Hk. }
   assert (Hup : forall x, uitems x (p_up q') = uitems x (p_up q) ++ rr x out).
   { intros x. unfold q'. destruct ids as [|i0 ir].
-    - cbn in Hr. assert (Hout : out = []).
-      { destruct (Hc x) as [H1 _]. clear -Hr. revert Hr. generalize (p_backlog q). generalize (@nil tid) at 1 3.
-        induction order as [|rq r IH]; cbn [retract_from]; intros o b0 H; [inversion H; reflexivity|].
-        cbn [tid_mem] in H. rewrite app_nil_r in *. cbn [map filter] in *.
-        assert (E : map wt_id (filter (fun _ : wtask => false) (bl_get b0 rq)) = []).
-        { induction (bl_get b0 rq); [reflexivity | exact IHl]. }
-        rewrite E, app_nil_r in H. eapply IH; exact H. }
+    - pose proof (retract_from_nil _ _ _ _ _ Hr) as Hout.
       subst out. cbn. rewrite app_nil_r. reflexivity.
     - cbn [send_up wp_up wp_upd p_up q1 wp_backlog]. rewrite uitems_app. cbn [uitems flat_map uitems_msg]. rewrite app_nil_r. reflexivity. }
   assert (Hloc : forall x, local q' x = match run_find (p_running q) x, bl_count x b with
@@ -215,11 +217,8 @@ Qed.
 
 Lemma fu_find_some_in l t v : fu_find l t = Some v -> In t (map fst l).
 Proof.
-  intros H. destruct (in_dec (fun a b => match N.eq_dec (fst a) (fst b), N.eq_dec (snd a) (snd b) with
-                                        | left e1, left e2 => left (ltac:(destruct a, b; cbn in *; congruence))
-                                        | right n, _ => right (fun e => n (f_equal fst e))
-                                        | _, right n => right (fun e => n (f_equal snd e)) end) t (map fst l)) as [Hi|Hn]; [exact Hi|].
-  apply fu_find_none in Hn. congruence.
+  induction l as [|[k v0] r IH]; cbn [fu_find map fst In]; [discriminate|].
+  destruct (tid_eqb t k) eqn:E; [apply tid_eqb_eq in E; auto | intros H; right; apply IH; exact H].
 Qed.
 
 Lemma cancel_task_eff q y :
@@ -230,10 +229,10 @@ Lemma cancel_task_eff q y :
   (LOK q -> LOK q').
 Proof.
   unfold cancel_task. destruct (run_find (p_running q) y) as [rv|] eqn:Er.
-  - destruct (fu_find (p_futures q) y) as [[sk|]|] eqn:Ef; cbn; repeat split; auto.
+  - destruct (fu_find (p_futures q) y) as [[sk|]|] eqn:Ef; cbn; do 6 (split; [reflexivity|]); (split; [intros x; left; reflexivity|]); try (intros HL; exact HL).
     intros [L1 L2 L3 L4 L5]. constructor; cbn; try assumption.
     rewrite fu_set_keys, L2. apply kset_mem; [exact L1|]. rewrite <- L2. eapply fu_find_some_in; exact Ef.
-  - cbn. repeat split; auto.
+  - cbn [p_up p_down p_rqs p_id p_running p_alloc p_backlog p_futures wp_backlog wp_futures wp_upd]. do 6 (split; [reflexivity|]). split.
     + intros x. rewrite bl_count_filter. destruct (tid_eqb x y) eqn:E; [apply tid_eqb_eq in E; right; auto | left; reflexivity].
     + intros [L1 L2 L3 L4 L5]. constructor; cbn; try assumption. rewrite map_map. cbn. exact L5.
 Qed.
@@ -341,7 +340,7 @@ Proof.
   assert (Hen_t : forall (l : list (N * N)), flat_map wupdate_tids (map (fun b => UEnable (fst b) (snd b)) l) = []).
   { intros l. induction l as [|h r IH]; [reflexivity | exact IH]. }
   assert (C : WOK (fst p2u) (snd p2u) dx /\ LOK (fst p2u) /\ SRC (fst p2u) (snd p2u) /\ FR p1 (fst p2u)).
-  { unfold p2u. destruct (negb used); cbn [fst snd]; [|repeat split; auto].
+  { unfold p2u. destruct (negb used); cbn [fst snd]; [|split; [exact B1|split; [exact B2|split; [exact B3|apply FR_refl]]]].
     split; [|split; [|split]].
     - intros x tx Hx. rewrite flat_map_app, Hen_i, app_nil_r. exact (B1 x tx Hx).
     - destruct B2; constructor; assumption.
@@ -365,7 +364,8 @@ Lemma timer_fire_eff q t :
   p_backlog q' = p_backlog q /\ (LOK q -> LOK q').
 Proof.
   unfold timer_fire. cbn [p_futures wp_timers wp_upd].
-  destruct (fu_find (p_futures q) t) as [[sk|]|] eqn:Ef; cbn; repeat split; auto; try (intros [L1 L2 L3 L4 L5]; constructor; cbn; assumption).
+  destruct (fu_find (p_futures q) t) as [[sk|]|] eqn:Ef; cbn; do 6 (split; [reflexivity|]);
+    try (intros [L1 L2 L3 L4 L5]; constructor; cbn; assumption).
   intros [L1 L2 L3 L4 L5]. constructor; cbn; try assumption.
   rewrite fu_set_keys, L2. apply kset_mem; [exact L1|]. rewrite <- L2. eapply fu_find_some_in; exact Ef.
 Qed.
@@ -375,10 +375,10 @@ Lemma timers_eff l : forall q,
   p_up q' = p_up q /\ p_down q' = p_down q /\ p_rqs q' = p_rqs q /\ p_id q' = p_id q /\ p_running q' = p_running q /\
   p_backlog q' = p_backlog q /\ (LOK q -> LOK q').
 Proof.
-  induction l as [|t r IH]; intros q; cbn [fold_left]; [repeat split; auto|].
+  induction l as [|t r IH]; intros q; cbn [fold_left]; [do 6 (split; [reflexivity|]); auto|].
   destruct (timer_fire_eff q t) as (E1 & E2 & E3 & E4 & E5 & E6 & E7).
   destruct (IH (timer_fire q t)) as (F1 & F2 & F3 & F4 & F5 & F6 & F7).
-  repeat split; try congruence. auto.
+  do 6 (split; [congruence|]). auto.
 Qed.
 
 End Handlers.
